@@ -454,6 +454,8 @@ func (u *Unit) applyContract(s *State, f *Frame, x ssa.Value, callee *ssa.Functi
 		s.assume(goal)
 	}
 	old := s.snap()
+	probe := u.probeBefore(s, fmt.Sprintf("%s -> %s @%p", shortKey(fnKey(s.top().Fn)), shortKey(key), x))
+	defer func() { u.probeAfter(s, probe) }()
 	// frame: callee's modifies must be inside ours
 	if u.C != nil && u.C.ModSet && !c.Pure {
 		envOld := *env
@@ -638,7 +640,7 @@ func (u *Unit) execInvoke(s *State, f *Frame, x *ssa.Call) []*State {
 	impls := u.V.implementerTypes(c.Value.Type())
 	if len(impls) == 0 || len(impls) > 12 {
 		// open interface (error, io.Reader, ...): assumed total with arbitrary result
-		u.Assumed["interface method "+types.TypeString(c.Value.Type(), nil)+"."+c.Method.Name()+": total, arbitrary result"] = true
+		u.Assumed["interface method "+types.TypeString(c.Value.Type(), nil)+"."+c.Method.Name()+": total, arbitrary result, writes only memory reachable from its arguments"] = true
 		eff := &effects{heaps: map[string]bool{}, allocs: true}
 		for _, a := range c.Args {
 			addReachable(a.Type(), eff.heaps, map[string]bool{}, 0)
@@ -710,12 +712,27 @@ func (u *Unit) applyIfaceContract(s *State, f *Frame, x *ssa.Call, ic *Contract,
 	}
 	u.Assumed["interface contract "+ic.Key+" (proved for every in-repo implementer separately)"] = true
 	old := s.snap()
+	probe := u.probeBefore(s, fmt.Sprintf("%s -> %s @%p", shortKey(fnKey(s.top().Fn)), ic.Key, x))
+	defer func() { u.probeAfter(s, probe) }()
 	if !ic.Pure {
 		eff := &effects{heaps: map[string]bool{}, allocs: true}
 		if ic.ModSet {
 			// only what the modifies clause names (plus fresh memory)
 			u.havocPerModifies(s, env, ic, eff)
 		} else {
+			// no modifies clause: no frame. For an interface whose implementers are all in /repo the
+			// possible writes are those of the implementers' methods (effect analysis); otherwise
+			// whatever is reachable from the arguments (assumption, listed).
+			impls := u.V.implementerTypes(c.Value.Type())
+			if len(impls) > 0 && len(impls) <= 12 {
+				for _, t := range impls {
+					if m := u.V.methodOf(t, c.Method); m != nil {
+						u.V.mergeEffects(eff, u.V.effectsOf(m, map[*ssa.Function]bool{}))
+					}
+				}
+			} else {
+				u.Assumed["interface method "+types.TypeString(c.Value.Type(), nil)+"."+c.Method.Name()+" writes only memory reachable from its arguments"] = true
+			}
 			for _, a := range c.Args {
 				addReachable(a.Type(), eff.heaps, map[string]bool{}, 0)
 			}
